@@ -326,7 +326,7 @@ func c15Populate(v reflect.Value, r *rand.Rand, depth int, tplText string) {
 	case reflect.Bool:
 		v.SetBool(true)
 	case reflect.Int, reflect.Int8, reflect.Int16, reflect.Int32, reflect.Int64:
-		v.SetInt(int64(1 + r.Intn(5)))
+		v.SetInt(int64(r.Intn(7) - 2))
 	case reflect.Uint, reflect.Uint8, reflect.Uint16, reflect.Uint32, reflect.Uint64:
 		v.SetUint(uint64(1 + r.Intn(5)))
 	case reflect.Float32, reflect.Float64:
